@@ -262,3 +262,10 @@ package route
 //@   requires route.shutdown != nil && route.wg != nil && !closed(route.shutdown)
 //@   modifies *
 //@   ensures[all_workers_signalled; C17] closed(route.shutdown) || llen(sent(route.shutdown)) == llen(old(sent(route.shutdown))) + route.Cfg.Concurrency
+
+// ---------------------------------------------------------------- route constructors as seen by the command readers
+// They build the route and start its destinations; they do not touch the table (which only receives the result).
+//@ func NewConsistentHashing(key string, matcher matcher.Matcher, destinations []*dest.Destination) (r Route, err error)
+//@   trusted
+//@   fresh
+//@   ensures err == nil ==> r != nil
